@@ -67,11 +67,13 @@ impl zeroize::ZeroizeOnDrop for ModelCipher {}
 // ghost: expectations set by the harness before the call under test
 /// "the server really sent a datagram with exactly this AAD / nonce / ciphertext under s2c"
 pub static mut AUTHENTIC: bool = false;
-pub static mut EXP_AAD_PTR: usize = 0;
+// (raw pointers, compared as pointers: casting the datagram's address to an integer makes CBMC give
+// up constant propagation through the datagram array - measured 38 s vs > 8 min)
+pub static mut EXP_AAD_PTR: *const u8 = core::ptr::null();
 pub static mut EXP_AAD_LEN: usize = 0;
-pub static mut EXP_NONCE_PTR: usize = 0;
+pub static mut EXP_NONCE_PTR: *const u8 = core::ptr::null();
 pub static mut EXP_NONCE_LEN: usize = 0;
-pub static mut EXP_CT_PTR: usize = 0;
+pub static mut EXP_CT_PTR: *const u8 = core::ptr::null();
 pub static mut EXP_CT_LEN: usize = 0;
 // ghost: records
 pub static mut DEC_CALLS: u8 = 0;
@@ -114,22 +116,37 @@ impl Cipher for ModelCipher {
                 DEC_WRONG_KEY += 1;
                 return Err(DecryptError);
             }
-            let extents_ok = associated_data.as_ptr() as usize == EXP_AAD_PTR
+            let extents_ok = associated_data.as_ptr() == EXP_AAD_PTR
                 && associated_data.len() == EXP_AAD_LEN
-                && nonce.as_ptr() as usize == EXP_NONCE_PTR
+                && nonce.as_ptr() == EXP_NONCE_PTR
                 && nonce.len() == EXP_NONCE_LEN
-                && ciphertext.as_ptr() as usize == EXP_CT_PTR
+                && ciphertext.as_ptr() == EXP_CT_PTR
                 && ciphertext.len() == EXP_CT_LEN;
             if !(AUTHENTIC && extents_ok) || ciphertext.len() < TAG_LEN {
                 return Err(DecryptError);
             }
             DEC_OK += 1;
         }
-        Ok(ciphertext[..ciphertext.len() - TAG_LEN].to_vec())
+        Ok(plaintext_vec(&ciphertext[..ciphertext.len() - TAG_LEN]))
     }
 
     fn key_bytes(&self) -> &[u8] {
         &self.id
+    }
+}
+
+/// Copy of the plaintext built from an array literal for the lengths the templates use (a
+/// `to_vec()`/memcpy makes CBMC forget which bytes are pinned type/length words, after which the
+/// parser of the decrypted fields is unrolled to the unwind bound with symbolic lengths).
+fn plaintext_vec(c: &[u8]) -> Vec<u8> {
+    match c.len() {
+        0 => Vec::new(),
+        16 => vec![c[0], c[1], c[2], c[3], c[4], c[5], c[6], c[7], c[8], c[9], c[10], c[11], c[12], c[13], c[14], c[15]],
+        32 => vec![
+            c[0], c[1], c[2], c[3], c[4], c[5], c[6], c[7], c[8], c[9], c[10], c[11], c[12], c[13], c[14], c[15], c[16], c[17], c[18], c[19], c[20], c[21], c[22],
+            c[23], c[24], c[25], c[26], c[27], c[28], c[29], c[30], c[31],
+        ],
+        _ => c.to_vec(),
     }
 }
 
@@ -145,11 +162,11 @@ pub fn s2c() -> Box<dyn Cipher> {
 pub fn expect_extents(msg: &[u8], nts_off: usize, ct_len: usize, authentic: bool) {
     unsafe {
         AUTHENTIC = authentic;
-        EXP_AAD_PTR = msg.as_ptr() as usize;
+        EXP_AAD_PTR = msg.as_ptr();
         EXP_AAD_LEN = nts_off;
-        EXP_NONCE_PTR = msg.as_ptr() as usize + nts_off + 8;
+        EXP_NONCE_PTR = msg[nts_off + 8..].as_ptr();
         EXP_NONCE_LEN = NONCE_LEN;
-        EXP_CT_PTR = msg.as_ptr() as usize + nts_off + 8 + NONCE_LEN;
+        EXP_CT_PTR = msg[nts_off + 8 + NONCE_LEN..].as_ptr();
         EXP_CT_LEN = ct_len;
     }
 }
@@ -507,3 +524,14 @@ where
     let (t, _) = ntp_proto::verif::packet::request_identifier_parts(id);
     (p, ntp_proto::verif::packet::request_identifier(t, Some(uid)))
 }
+
+/// byte-wise, loop-free copy of up to 32 bytes (a memcpy into the datagram array would make CBMC
+/// treat the whole array as one symbolic object and lose the pinned type/length words; a loop
+/// would need a larger global unwind bound)
+pub fn put_bytes(b: &mut [u8], off: usize, src: &[u8]) {
+    let n = src.len();
+    assert!(n <= 32);
+    macro_rules! cp { ($($i:expr),*) => { $( if n > $i { b[off + $i] = src[$i]; } )* } }
+    cp!(0, 1, 2, 3, 4, 5, 6, 7, 8, 9, 10, 11, 12, 13, 14, 15, 16, 17, 18, 19, 20, 21, 22, 23, 24, 25, 26, 27, 28, 29, 30, 31);
+}
+
